@@ -29,6 +29,19 @@ def _tls_stream_from(ctx, a, c):
     return Agg("struct:TlsStream", [a[0]])
 
 
+def judge_call(scn, out):
+    """concrete reference: TLS iff configured and https|wss; True = the native run violates the property"""
+    if out.get("result", "").startswith(("panic", "crash")):
+        return True
+    if "input_error" in out or "authority" not in scn:
+        return None
+    want_tls = str(scn.get("tls_configured", 1)) != "0" and scn.get("scheme") in ("https", "wss")
+    got = out.get("stream")
+    if want_tls:
+        return got == "plain"
+    return got in ("tls", "tls-handshake-pending")
+
+
 HOSTLEN = [3]
 
 
@@ -95,7 +108,8 @@ def obligations(prog, src, tier, seed):
                           "transport::future::TransportBraidFuture::{from_plain,from_tls}"],
                 "bound": "every URI form (scheme in {none,http,https,ws,wss,ftp}), TLS configured yes/no",
                 "doc": "TLS future iff a TLS configuration exists and the scheme is https|wss; its server name is uri.host(); missing host => NoDomain error without connecting; otherwise plain",
-                "run": run_call, "check": check_call})
+                "run": run_call, "check": check_call, "cex_extract": lambda p, m: dict({"family": "tls_connect", "tls_configured": int(p.ctx.tls)}, **uri_scenario(m, p.ctx.u)),
+                "judge": judge_call})
 
     # ---- the server name is usable for every syntactically valid host ----------------------------------
     def run_domain(ctx):
@@ -111,9 +125,10 @@ def obligations(prog, src, tier, seed):
         tt = Agg("struct:TlsTransport", [Enum("InnerBraid", "Tls", 1, [Agg("struct:TlsTransportWrapper", [t, Opaque("Arc<ClientConfig>")])])])
         fut = ctx.exec_fn(f_call, [Ref(Cell(tt, "transport")), parts])
         kind, inner = future_kind(fut)
-        st = inner.f[0]
         if kind != "Tls":
-            raise Inconclusive("expected a TLS future")
+            ctx.rejected = "plain"
+            return None
+        st = inner.f[0]
         if st.variant != "Connecting":
             ctx.rejected = True
             return None
@@ -128,6 +143,8 @@ def obligations(prog, src, tier, seed):
         if p.outcome == "panic":
             return [("TLS stream construction panics for a syntactically valid URI host: " + str(p.value)[:70], False)]
         ctx = p.ctx
+        if ctx.rejected == "plain":
+            return [("https/wss request with TLS configured did not get a TLS connection", False)]
         if ctx.rejected:
             return [("a host that is a valid server name must not be rejected", z3.Not(valid_server_name(bare_host(ctx.u.auth), ctx)))]
         out = p.value
